@@ -156,3 +156,8 @@ Theorem C05_source_views_agree_at_quiescence :
     quiescent (cstate_after (src_cfg fe fp ms mc) es) ->
     views_agree (cg (cstate_after (src_cfg fe fp ms mc) es)).
 Proof. exact source_views_agree. Qed.
+
+
+Theorem C05_source_refusal_order :
+  conc_source_refusals = model_refusals.
+Proof. exact source_refusal_order. Qed.
